@@ -42,6 +42,8 @@ def gen_table(rng, ncols=None, nrows=None, shape=None, exotic_names=True):
             cname = rng.choice(["X\x0c0", "X\x850", "X\u20280", "X\x0b0", "X 0", "X\x1c0"])
         cols[cname] = {"data": data, "integer": integer}
     t = {"cols": cols, "nrows": nrows, "missing": missing, "file": "in.csv"}
+    if shape is None and rng.random() < 0.2:
+        t["bare_whole"] = sorted(set(rng.randrange(nrows) for _ in range(rng.randint(1, 3))) | ({0} if rng.random() < 0.6 else set()))
     if shape is None and nrows >= 2 and rng.random() < 0.12:
         t["blank_before"] = sorted(set(rng.randint(1, nrows - 1) for _ in range(rng.randint(1, 2))))
     if shape is not None and cols and rng.random() < 0.6:
@@ -53,6 +55,9 @@ def gen_table(rng, ncols=None, nrows=None, shape=None, exotic_names=True):
     if shape is not None:
         t["shape"] = list(shape)
         t["file"] = "in.nc"
+        if len(shape) >= 2 and rng.random() < 0.5:
+            # dimension names are just names: the order of the axes is the order in which the variable is stored
+            t["dimnames"] = (["time", "band", "t"][:len(shape) - 2] + rng.choice([["lon", "lat"], ["x", "y"], ["lat", "lon"], ["y", "x"], ["col", "row"]]))
         if rng.random() < 0.3:
             # cells the file itself marks missing (written masked: they hold the variable's fill value on disk), next to
             # whatever the MissingValue argument of a read declares missing
@@ -85,8 +90,16 @@ def write_table(table, d):
         for r in range(table["nrows"]):
             if r in (table.get("blank_before") or ()):
                 f.write("\n")          # an empty line between two records (skipped by the reader)
-            f.write(",".join(repr(table["cols"][n]["data"][r]) for n in names) + "\n")
+            f.write(",".join(_cell_text(table, table["cols"][n]["data"][r], r) for n in names) + "\n")
     return path
+
+
+def _cell_text(table, v, r):
+    """A cell as text. Tables flagged `bare_whole` write whole decimals the way spreadsheets do (3 instead of 3.0), in the rows
+    listed there."""
+    if isinstance(v, float) and v == int(v) and abs(v) < 1e15 and r in (table.get("bare_whole") or ()):
+        return str(int(v)) if v != 0 or str(v)[0] != "-" else "-0"
+    return repr(v)
 
 
 NAME_POOL = ["A", "a", "B", "b", "C", "D", "E", "F", "G", "H", "Slope", "slope", "Wet", "WET", "Fz", "fz", "Res", "Layer1", "Layer2", "T", "U", "V", "W", "Y", "Z", "k", "K", "m", "M",
@@ -101,8 +114,9 @@ def write_table_nc(table, path):
     shape = tuple(table.get("shape") or [table["nrows"]])
     with Dataset(path, "w") as ds:
         dims = []
+        dimnames = table.get("dimnames") or ["d%d" % i for i in range(len(shape))]
         for i, n in enumerate(shape):
-            nm = "d%d" % i
+            nm = dimnames[i]
             ds.createDimension(nm, n)
             v = ds.createVariable(nm, "f8", (nm,))
             v[:] = numpy.arange(n) * 10.0
